@@ -28,19 +28,21 @@ type c08Meta struct {
 	Steps    []c08Step `json:"steps"`
 	Rows     int       `json:"rows"`
 	Injected bool      `json:"injected"`
-	Final    []string  `json:"final"`           // file tables that must exist after the final COMMIT
-	Files    []string  `json:"files,omitempty"` // file names of t0 and t1 (the extension is the format)
-	Fixed    bool      `json:"fixed,omitempty"` // a fixed-length table takes part (--import-format FIXED)
+	Final    []string  `json:"final"`              // file tables that must exist after the final COMMIT
+	Files    []string  `json:"files,omitempty"`    // file names of t0 and t1 (the extension is the format)
+	Fixed    bool      `json:"fixed,omitempty"`    // a fixed-length table takes part (--import-format FIXED)
+	Reformat []string  `json:"reformat,omitempty"` // tables whose format attributes the session changes
 }
 
 type c08gen struct {
-	r      *Rng
-	steps  []c08Step
-	tables []string
-	rows   int
-	uniq   int
-	nfail  int
-	added  map[string]bool // table has the extra column x
+	reformatted map[string]bool
+	r           *Rng
+	steps       []c08Step
+	tables      []string
+	rows        int
+	uniq        int
+	nfail       int
+	added       map[string]bool // table has the extra column x
 }
 
 func (g *c08gen) dump() {
@@ -74,6 +76,18 @@ func (g *c08gen) okStmt() string {
 		}
 		if g.three(t) && g.r.Bool(0.25) {
 			return fmt.Sprintf("ALTER TABLE %s SET %s;", t, g.r.PickS("ENCLOSE_ALL TO TRUE", "LINE_BREAK TO CRLF", "ENCLOSE_ALL TO FALSE", "LINE_BREAK TO LF"))
+		}
+		if g.three(t) && g.r.Bool(0.25) {
+			// attributes that change the format the file is written in (the file keeps its
+			// name, so a fresh process would read it in the wrong format: such a table is
+			// compared byte-wise with the session without the failed statements only)
+			if g.reformatted == nil {
+				g.reformatted = map[string]bool{}
+			}
+			g.reformatted[t] = true
+			return fmt.Sprintf("ALTER TABLE %s SET %s;", t, g.r.PickS("FORMAT TO 'TSV'", "FORMAT TO 'LTSV'", "FORMAT TO 'JSON'", "FORMAT TO 'JSONL'", "FORMAT TO 'FIXED'", "DELIMITER TO ';'",
+				"DELIMITER_POSITIONS TO '[10]'", "DELIMITER_POSITIONS TO '[5, 10, 30]'", "DELIMITER_POSITIONS TO 'S[10, 20]'", "DELIMITER_POSITIONS TO 'SPACES'", "ENCODING TO 'SJIS'", "ENCODING TO 'UTF16'",
+				"HEADER TO FALSE", "JSON_ESCAPE TO 'HEX'", "PRETTY_PRINT TO TRUE", "FORMAT TO 'CSV'"))
 		}
 		g.added[t] = true
 		return fmt.Sprintf("ALTER TABLE %s ADD x DEFAULT n * 2;", t)
@@ -278,6 +292,10 @@ func genC08(seed uint64) (*Scenario, *c08Meta) {
 	g.dump()
 	g.steps = append(g.steps, c08Step{Kind: "stmt", Src: "COMMIT;"})
 	m.Steps = g.steps
+	for t := range g.reformatted {
+		m.Reformat = append(m.Reformat, t)
+	}
+	sort.Strings(m.Reformat)
 	for _, t := range g.tables {
 		if t != "tv" {
 			m.Final = append(m.Final, t)
@@ -488,7 +506,14 @@ func (c08) Eval(t *testing.T, c *Case, dec func(int) *Decider) *Outcome {
 	// the final COMMIT writes exactly the last dump
 	commitIdx := len(meta.Steps) - 1
 	if e, msg := isErr(commitIdx); e {
-		if meta.Fixed && strings.Contains(msg, "value is too long") {
+		headerless := false
+		for _, f := range meta.Files {
+			if e := filepath.Ext(f); e == ".ltsv" || e == ".json" || e == ".jsonl" {
+				headerless = true
+			}
+		}
+		if (meta.Fixed || len(meta.Reformat) > 0 || headerless) && (strings.Contains(msg, "value is too long") || strings.Contains(msg, "data empty")) {
+			// (LTSV cannot hold a table without records: "data empty")
 			// a value outgrew its column of a fixed-length table: COMMIT refuses with a documented error
 			o.Stats.probe("fixed-length-commit-refused")
 			return o
@@ -508,6 +533,11 @@ func (c08) Eval(t *testing.T, c *Case, dec func(int) *Decider) *Outcome {
 		// table - that is the round-trip property C02 -, so tables in that format are
 		// compared byte-wise with the session without the failed statements only)
 		isFixed := func(tb string) bool {
+			for _, rt := range meta.Reformat {
+				if rt == tb {
+					return true
+				}
+			}
 			if !meta.Fixed {
 				return false
 			}
@@ -538,6 +568,17 @@ func (c08) Eval(t *testing.T, c *Case, dec func(int) *Decider) *Outcome {
 		} else {
 			fd := parseTableDump(fres.Procs[0].Stdout)
 			for _, tb := range freshTabs {
+				if want, ok := lastDump[tb]; ok && strings.Count(strings.TrimSpace(want), "\n") == 0 {
+					headerless := false
+					for _, f := range meta.Files {
+						if e := filepath.Ext(f); strings.TrimSuffix(f, e) == tb && (e == ".ltsv" || e == ".json" || e == ".jsonl") {
+							headerless = true
+						}
+					}
+					if headerless {
+						continue // a format without a header line cannot keep the columns of a table without records
+					}
+				}
 				if want, ok := lastDump[tb]; ok && strings.TrimRight(fd[tb], "\n") != strings.TrimRight(want, "\n") {
 					o.viol(prop, "commit", "commit-wrote-partial-effects",
 						fmt.Sprintf("table %s as committed differs from what the session saw before COMMIT: %s", tb, firstDiff(want, fd[tb])))
